@@ -12,7 +12,9 @@ import (
 
 // slicePool wraps the source pool of a diff. Every Read of a reader it hands
 // out is a choice point of the tape: answer 0 = serve the read in full
-// (default), other answers = return at most 1 byte, or at most 16383 bytes.
+// (default), other answers = return at most 1 byte, or at most 16383 bytes;
+// the read that delivers the last bytes has one more choice: report io.EOF
+// together with them.
 // Alternatives that would not differ from the full read (request or remaining
 // bytes too small) are not offered, so no two tapes describe the same slicing.
 type slicePool struct {
@@ -22,6 +24,7 @@ type slicePool struct {
 	mu sync.Mutex
 	// observations of one execution
 	reads, devs int
+	eofWithData int
 	devOnMulti  bool // a deviation happened in a file of more than one block
 }
 
@@ -72,9 +75,26 @@ func (s *sliceReader) Read(buf []byte) (int, error) {
 		// nothing left by the container's account (or empty request): plain pass-through
 		return s.r.Read(buf)
 	}
+	// the read that delivers the last bytes of the file may report the end at once
+	// (n > 0 together with io.EOF, as io.Reader allows and zip/gzip sources do) instead
+	// of leaving it to a further, empty read: one more deviation
+	withEOF := false
+	if n == s.rem {
+		if p.t.Choose(2, "eof-with-data") == 1 {
+			withEOF = true
+			p.devs++
+			p.eofWithData++
+			if s.size > 64*1024 {
+				p.devOnMulti = true
+			}
+		}
+	}
 	m, err := io.ReadFull(s.r, buf[:n])
 	s.rem -= int64(m)
 	if err == io.ErrUnexpectedEOF {
+		err = io.EOF
+	}
+	if err == nil && withEOF {
 		err = io.EOF
 	}
 	return m, err
